@@ -349,16 +349,28 @@ def check_products(ctx: Check, tree: Tree) -> None:
     """coefficient x product(nodes) x prefactor; |coherent sum|^2 ; D x dynamics (x CG)."""
     seq = tree.func(f"{BUILDER}.__formulate_sequential_decay")
     rd = RD(seq.node)
-    rets = [r for r, _ in rd.returns]
-    if len(rets) != 1:
-        raise AnalysisError("__formulate_sequential_decay: one return expected")
-    calls = _def_calls(tree, seq, rd, rets[0].value)
+    rets = [r for r, _ in rd.returns if r.value is not None]
+    if not rets:
+        raise AnalysisError("__formulate_sequential_decay: no return")
+    calls = set()
+    for r_ in rets:
+        calls |= set(_def_calls(tree, seq, rd, r_.value))
     ok = "reduce" in calls and "__generate_amplitude_coefficient" in calls and "_formulate_partial_decay" in calls
     ctx.verdict(ok, "R-FOLD", f"{seq.qual}::returns-product", tree.loc(rets[0]),
                 "sequential amplitude = coefficient x reduce(mul, partial decays of all nodes) [x prefactor]", None if ok else sorted(c for c in calls if "::" not in c))
     mults = [n for n in walk_function(seq.node) if isinstance(n, ast.AugAssign) and isinstance(n.op, ast.Mult) and "__generate_amplitude_prefactor" in _def_calls(tree, seq, rd, n.value)]
     problems = []
-    if len(mults) != 1:
+    ret_mults = [r_ for r_ in rets if isinstance(r_.value, ast.BinOp) and isinstance(r_.value.op, ast.Mult)
+                 and any("__generate_amplitude_prefactor" in _def_calls(tree, seq, rd, side) for side in (r_.value.left, r_.value.right))]
+    if not mults and len(ret_mults) == 1:
+        # `if prefactor is None: return expression` / `return prefactor * expression`
+        pside = next(side for side in (ret_mults[0].value.left, ret_mults[0].value.right) if "__generate_amplitude_prefactor" in _def_calls(tree, seq, rd, side))
+        pname = unparse(pside)
+        early = [n for n in walk_function(seq.node) if isinstance(n, ast.If) and isinstance(n.test, ast.Compare) and len(n.test.ops) == 1 and isinstance(n.test.ops[0], ast.Is)
+                 and unparse(n.test.left) == pname and isinstance(n.test.comparators[0], ast.Constant) and n.test.comparators[0].value is None and any(isinstance(b_, ast.Return) for b_ in n.body)]
+        if not early and any(r_ is not ret_mults[0] for r_ in rets):
+            problems.append("a path returns the amplitude without the prefactor although it is not None")
+    elif len(mults) != 1:
         problems.append(f"{len(mults)} statements multiply the prefactor into the amplitude")
     else:
         guards = [a for a in ancestors(mults[0]) if isinstance(a, ast.If)]
@@ -383,7 +395,8 @@ def check_products(ctx: Check, tree: Tree) -> None:
     ctx.verdict(ok, "R-FOLD", f"{seq.qual}::reduce-mul", tree.loc(seq.node), "the per-node factors are combined with operator.mul")
     check_amplitude_stored(ctx, tree)
     cstores = [n for n in walk_function(seq.node) if isinstance(n, ast.Assign) and isinstance(n.targets[0], ast.Subscript) and unparse(n.targets[0].value).endswith(".components")]
-    ok = len(cstores) == 1 and isinstance(cstores[0].value, ast.Name) and isinstance(rets[0].value, ast.Name) and rd.reaching(cstores[0].value) == rd.reaching(rets[0].value) and not any(isinstance(a, (ast.If, ast.For)) for a in ancestors(cstores[0]) if a is not seq.node)
+    ok = (len(cstores) == 1 and isinstance(cstores[0].value, ast.Name) and not any(isinstance(a, (ast.If, ast.For)) for a in ancestors(cstores[0]) if a is not seq.node)
+          and all(isinstance(r_.value, ast.Name) and rd.reaching(cstores[0].value) == rd.reaching(r_.value) for r_ in rets))
     ctx.verdict(ok, "R-FOLD", f"{seq.qual}::component-stored", tree.loc(seq.node), "every chain amplitude that is returned is stored unconditionally as component A_{...} (the complete expression incl. prefactor)")
     top = tree.func(f"{BUILDER}.__formulate_top_expression")
     trd = RD(top.node)
@@ -498,6 +511,7 @@ def check_group_key(ctx: Check, tree: Tree) -> None:
 
 def run(ctx: Check, tree: Tree) -> None:
     ctx.decided += [
+        "R-TERM (shared with C13): the lineshape of a node is evaluated on that node's own variables - invariant mass, daughter masses and the L of the node (fallbacks only where the transition specifies no L)",
         "R-TERM: Wigner-D roles (J, m of the parent; l1 - l2 of children[0], children[1]; -phi, theta, 0) and both Clebsch-Gordan coefficients equal the formula in the property",
         "R-GROUPKEY: group_by_spin_projection separates transitions by (particle name, spin projection) of every outer state without lossy conversion",
         "R-FOLD: over the fold chain top expression -> register -> topology amplitude -> sequential decay, every transition / combinatorics graph / node reaches its accumulator unconditionally and the accumulator is folded whole; coefficient x product x prefactor; |coherent sum|^2",
@@ -516,3 +530,6 @@ def run(ctx: Check, tree: Tree) -> None:
     ctx.section(check_fold, ctx, tree)
     ctx.section(check_products, ctx, tree)
     ctx.section(check_group_key, ctx, tree)
+    from .c13 import check_variable_set
+
+    ctx.section(check_variable_set, ctx, tree)  # "x the assigned lineshape"
